@@ -96,6 +96,7 @@ type Disk struct {
 
 	// gate
 	gateKind   CallKind
+	gateSkip   int
 	gateArmed  bool
 	gateParked chan struct{}
 	gateGo     chan struct{}
@@ -236,10 +237,14 @@ func (d *Disk) Injected() int {
 // Hold arms the gate: the goroutine issuing the next call of the given kind is
 // parked before the call has any effect. The returned channel is closed once
 // a goroutine is parked.
-func (d *Disk) Hold(kind CallKind) <-chan struct{} {
+func (d *Disk) Hold(kind CallKind) <-chan struct{} { return d.HoldNth(kind, 0) }
+
+// HoldNth is Hold, but lets the next skip calls of that kind pass first.
+func (d *Disk) HoldNth(kind CallKind, skip int) <-chan struct{} {
 	d.mu.Lock()
 	defer d.mu.Unlock()
 	d.gateKind = kind
+	d.gateSkip = skip
 	d.gateArmed = true
 	d.gateParked = make(chan struct{})
 	d.gateGo = make(chan struct{})
@@ -261,7 +266,9 @@ func (d *Disk) Release() {
 // enter is called with d.mu held at the start of every I/O call. It handles
 // the gate and the fault plan. Returns the fault to apply (or nil).
 func (d *Disk) enter(kind CallKind) *Fault {
-	if d.gateArmed && d.gateKind == kind {
+	if d.gateArmed && d.gateKind == kind && d.gateSkip > 0 {
+		d.gateSkip--
+	} else if d.gateArmed && d.gateKind == kind {
 		parked, goCh := d.gateParked, d.gateGo
 		d.gateArmed = false
 		d.mu.Unlock()
